@@ -46,7 +46,7 @@ Local Open Scope list_scope.
 Local Open Scope string_scope.
 
 (* the order of the tests of process_node found in the source is the one the model implements *)
-Theorem C03_process_node_order : process_node_order = modelled_order /\ process_node_returns = 19 /\ process_node_raises = 1.
+Theorem C03_process_node_order : process_node_order = modelled_order /\ process_node_returns = modelled_returns /\ process_node_raises = 1.
 Proof. exact (conj process_node_order_is_modelled process_node_exits_are_modelled). Qed.
 Print Assumptions C03_process_node_order.
 
